@@ -260,15 +260,36 @@ def run_shard(shard, only=None):
 # ------------------------------------------------------------------ E3b: registration semantics
 
 def bfs_registration(depth, res, shard, only):
-    """states = histories over ops (add|del, event in {e1,e2}, listener in {0,1,2}); the real EventManager is rebuilt by
-    replay for every history (no copying of live objects); canonical state = registration lists per event"""
+    """states = histories over ops (add|del, event in {e1,e2}, listener in {0..4}), (delall, event), (fire, event); listeners
+    3 and 4 are one-shot: they deregister themselves from inside their own invocation.  The real EventManager is rebuilt
+    by replay for every history (no copying of live objects); canonical state = registration lists per event.  Reference:
+    firing runs every listener registered at that moment once, in registration order - also when one of them removes
+    itself while the event is being delivered - and a one-shot listener is gone afterwards."""
     from spyne.evmgr import EventManager
-    ops = [(op, ev, l) for op in ('add', 'del') for ev in ('e1', 'e2') for l in (0, 1, 2)] + [('delall', ev, None) for ev in ('e1', 'e2')]
+    NL = 5
+    ONESHOT = (3, 4)
+    ops = [(op, ev, l) for op in ('add', 'del') for ev in ('e1', 'e2') for l in range(NL)] + [('delall', ev, None) for ev in ('e1', 'e2')] + \
+          [('fire', ev, None) for ev in ('e1', 'e2')]
     calls = []
-    listeners = [(lambda ctx, i=i: calls.append(i)) for i in range(3)]
 
     def build(hist):
         em = EventManager(None)
+        cur = {'ev': None}
+
+        def mk(i):
+            if i in ONESHOT:
+                def f(ctx):
+                    calls.append(i)
+                    em.del_listener(cur['ev'], f)
+            else:
+                def f(ctx):
+                    calls.append(i)
+            return f
+        listeners = [mk(i) for i in range(NL)]
+
+        def fire(ev):
+            cur['ev'] = ev
+            em.fire_event(ev, None)
         ref = {'e1': [], 'e2': []}
         for op, ev, l in hist:
             if op == 'add':
@@ -280,14 +301,19 @@ def bfs_registration(depth, res, shard, only):
                     em.del_listener(ev, listeners[l])
                     ref[ev].remove(l)
                 else:
-                    return None, None     # not enabled: deleting a listener that is not registered
+                    return None, None, None     # not enabled: deleting a listener that is not registered
+            elif op == 'fire':
+                if not ref[ev]:
+                    return None, None, None     # (firing an event nobody listens to changes nothing)
+                fire(ev)
+                ref[ev] = [x for x in ref[ev] if x not in ONESHOT]
             else:
                 if ref[ev] or ev in em.handlers:
                     em.del_listener(ev)
                     ref[ev] = []
                 else:
-                    return None, None
-        return em, ref
+                    return None, None, None
+        return em, ref, fire
 
     def canon(ref):
         return (tuple(ref['e1']), tuple(ref['e2']))
@@ -300,8 +326,10 @@ def bfs_registration(depth, res, shard, only):
             continue
         for op in ops:
             h2 = hist + [op]
+            if only is not None and [list(x) for x in h2] != [list(x) for x in only][:len(h2)]:
+                continue
             try:
-                em, ref = build(h2)
+                em, ref, fire = build(h2)
             except Exception as e:
                 res['violations'].append({'sig': 'C14|registration-raises|%s|%s' % (op[0], type(e).__name__),
                                           'what': 'history %s raised %r' % (h2, e), 'case': {'shard': shard, 'only': h2}, 'count': 1})
@@ -312,18 +340,29 @@ def bfs_registration(depth, res, shard, only):
             nhist += 1
             res['evaluations'] += 1
             for ev in ('e1', 'e2'):
+                # observation on a throw-away rebuild: firing changes the state when one-shot listeners are registered
+                em2, ref2, fire2 = build(h2)
                 del calls[:]
-                em.fire_event(ev, None)
-                if calls != ref[ev]:
-                    res['violations'].append({'sig': 'C14|registration-order|%s' % ('duplicate' if len(calls) != len(set(calls)) else 'order'),
-                                              'what': 'after %s firing %s called listeners %s, reference model says %s' % (h2, ev, calls, ref[ev]),
+                try:
+                    fire2(ev)
+                except Exception as e:
+                    res['violations'].append({'sig': 'C14|registration-raises|fire|%s' % type(e).__name__,
+                                              'what': 'after %s firing %s raised %r' % (h2, ev, e), 'case': {'shard': shard, 'only': h2}, 'count': 1})
+                    continue
+                if calls != ref2[ev]:
+                    kind = 'duplicate' if len(calls) != len(set(calls)) else ('skipped' if len(calls) < len(ref2[ev]) else 'order')
+                    res['violations'].append({'sig': 'C14|registration-order|%s' % kind,
+                                              'what': 'after %s firing %s called listeners %s, reference model says %s (3 and 4 remove themselves while running)' % (
+                                                  h2, ev, calls, ref2[ev]),
                                               'case': {'shard': shard, 'only': h2}, 'count': 1})
             k = canon(ref)
             if k not in seen:
                 seen.add(k)
                 nstates += 1
                 res['nontrivial'] += 1
-            frontier.append(h2)
+                frontier.append(h2)
+            elif only is not None:
+                frontier.append(h2)
     res['cov']['bfs_states'] = nstates
     res['cov']['bfs_transitions'] = ntrans
     res['cov']['bfs_histories'] = nhist
